@@ -227,6 +227,9 @@ Proof.
   intros [Ha Hf]. unfold eq_answer. rewrite Ha, Hf. cbn [N.eqb andb fst]. reflexivity.
 Qed.
 
+Lemma cls_truth_honest sc a b : honest sc -> cls_truth sc a b = N.eqb a b.
+Proof. intros [Ha _]. unfold cls_truth, asym. rewrite Ha. reflexivity. Qed.
+
 Lemma drop_boom_honest sc id : honest sc -> drop_boom sc id = false.
 Proof. intros [_ Hf]. unfold drop_boom. rewrite Hf. reflexivity. Qed.
 
@@ -239,12 +242,14 @@ Proof. intros [_ Hf]. unfold clone_tick. rewrite Hf. reflexivity. Qed.
 Lemma env_map_lawful sc : honest sc -> Lawful (env_map sc) kcls qcls.
 Proof.
   intros Hh. constructor; intros; cbn [env_map eqK eqKQ eqQQ eqQK dropK dropV fst];
+    rewrite ?(cls_truth_honest sc _ _ Hh);
     first [apply eq_answer_honest; exact Hh | apply drop_boom_honest; exact Hh].
 Qed.
 
 Lemma env_set_lawful sc : honest sc -> Lawful (env_set sc) kcls qcls.
 Proof.
   intros Hh. constructor; intros; cbn [env_set eqK eqKQ eqQQ eqQK dropK dropV fst];
+    rewrite ?(cls_truth_honest sc _ _ Hh);
     first [apply eq_answer_honest; exact Hh | apply drop_boom_honest; exact Hh | reflexivity].
 Qed.
 
